@@ -259,7 +259,9 @@ def _check_removal(prog: Program, run: Run, f: FuncInfo, name: str) -> None:
                                       f"`{ast.unparse(x)}` does not pop the requested index",
                                       f.loc)
                 else:
-                    removed = params[1] if name == "remove" else removed
+                    # list.remove(self, obj) drops the first element EQUAL to obj; which object
+                    # that was is not known afterwards
+                    removed = "<by-equality>" if name == "remove" else removed
             if isinstance(x, ast.Call) and _is_self_attr(x.func, "pop") and name == "remove":
                 # remove() implemented through self.pop(index_of(obj)) delegates both views
                 list_nodes.append(n.id)
@@ -272,6 +274,14 @@ def _check_removal(prog: Program, run: Run, f: FuncInfo, name: str) -> None:
     if removed == "<delegated>":
         run.ok("C16.R1", f"{CLS}.{name}", "delegates to pop(), which updates both views", f.loc)
         run.ok(R, f"{CLS}.{name}", "name deletion delegated to pop()", f.loc)
+        return
+    if removed == "<by-equality>":
+        run.violation(R, f"{CLS}.{name}", "removed-element-not-identified",
+                      f"{name} takes the element out with list.remove(), i.e. the first element "
+                      "that is EQUAL to the argument, and then deletes a name by identity with "
+                      "the argument: when an equal but distinct object is passed, the name of "
+                      "the removed element stays behind (or the name of another object goes). "
+                      "The removed element must be identified first (index / pop)", f.loc)
         return
     if removed is None:
         run.violation(R, f"{CLS}.{name}", "removed-object-unknown",
@@ -592,22 +602,25 @@ def _check_naming(prog: Program, run: Run, ci, add_item: FuncInfo) -> None:
                 isinstance(x.targets[0], ast.Name):
             sn = x.targets[0].id
     sn_e = sn or f"{item}.short_name"
-    kcfg = CFG(k.node)
-    esc_ok = False
-    plain_ok = False
-    for r in [x for x in walk_no_nested(k.node) if isinstance(x, ast.Return)]:
-        conds = kcfg.branch_conditions(kcfg.node_of(r))
-        v = r.value
-        txt = ast.unparse(v) if v is not None else ""
-        tests = " ".join(ast.unparse(t) for t, pol in conds if pol)
-        if isinstance(v, ast.JoinedStr) or isinstance(v, ast.BinOp):
-            if txt in (f"f'_{{{sn_e}}}'", f"'_' + {sn_e}") and "isdigit()" in tests and \
-                    "iskeyword" in tests and f"{sn_e}[0].isdigit()" in tests:
-                # both tests in one disjunction
-                esc_ok = any(isinstance(t, ast.BoolOp) and isinstance(t.op, ast.Or)
-                             for t, pol in conds if pol) or tests.count("return") == 0
-        elif txt == sn_e:
-            plain_ok = True
+    # decision table over (starts with a digit, is a keyword), read off the symbolic returns
+    from ..absint import consistent_paths
+    from ..cfg import symbolic_returns
+    E = f"{item}.short_name"
+    paths = [(c, e, r) for c, e, r in symbolic_returns(k.node) if e is not None]
+    esc_ok = plain_ok = True
+    for dig in (True, False):
+        for kw in (True, False):
+            env = {f"{E}[0].isdigit()": dig, f"iskeyword({E})": kw,
+                   f"keyword.iskeyword({E})": kw, f"isinstance({E}, str)": True}
+            sel = consistent_paths(paths, env)
+            txts = {" ".join(ast.unparse(e_).split()) for _c, e_, _r in sel}
+            txt = txts.pop() if len(txts) == 1 else None
+            escaped = txt in (f"f'_{{{E}}}'", f"'_' + {E}")
+            plain = txt == E
+            if dig or kw:
+                esc_ok = esc_ok and escaped
+            else:
+                plain_ok = plain_ok and plain
     if esc_ok and plain_ok:
         run.ok(R, "NamedItemList._get_item_key", "short names that are keywords or start with a "
                "digit get a leading underscore, all others are used as they are", k.loc)
